@@ -167,6 +167,28 @@ fn pay_tuple(seed: u64, tier: Tier) {
         }
         eng::path_done();
     }
+    // near value at the edge of the amount type: a proof for the refund -(2^63-1) presented with the wire-only amount -2^63
+    // (no constructor makes i64::MIN; a decoded PaymentAmount can carry it)
+    {
+        sx::begin(vec![], DrawMode::NonDegenerate, seed);
+        let m = i64::MAX as u64;
+        let mut e = pay_setup(seed, 0, m, -(m as i64));
+        if let Some(amin) = decode::<zkabacus_crypto::PaymentAmount>(&i64::MIN.to_le_bytes()) {
+            let pa: PProof = decode(&e.bytes).unwrap();
+            sx::set_label("verA");
+            let ra = e.w.merchant.allow_payment(&mut e.rng, amount(-(m as i64)), &e.nonce, pa, &e.pctx).is_some();
+            sx::set_label("verB-shadow");
+            let pb: PProof = decode(&e.bytes).unwrap();
+            let rb = std::panic::catch_unwind(std::panic::AssertUnwindSafe(|| e.w.merchant.allow_payment(&mut e.rng, amin, &e.nonce, pb, &e.pctx).is_some())).unwrap_or(false);
+            if !ra || rb {
+                eng::finding("C06 pay-proof-transfers amount -(2^63-1) -> -2^63", &format!("a pay proof for the refund -(2^63-1) accepted={}, presented with the decoded amount i64::MIN accepted={}", ra, rb), None, json!({"kind":"model"}));
+            }
+            if !matches!(eng::witness("C06 pay: rejected under substituted amount -(2^63-1) -> -2^63 (witness)", &eng::hyps(), &F::True), Tri::Yes) {
+                eng::inconclusive("C06 pay amount boundary: rejecting run has no confirmed witness");
+            }
+        }
+        eng::path_done();
+    }
     // configuration atoms: merchant key, range parameters, revocation-commitment parameters (generic rejection)
     for which in ["key", "range", "revparams"] {
         let n = {
